@@ -339,3 +339,83 @@ package flows
 //@   ensures[signs-the-commitment-of-the-final-content] result1 == nil ==> result0 != nil && signedHash == keccak(catB(catB(emptyB(), bytesOf(hb(result0.NewLocalExitRoot), 32)), bytesOf(hb(keccak(chainH(ppChunks, len(result0.ImportedBridgeExits)))), 32))) && forall(k, 0, len(result0.ImportedBridgeExits), ppChunks[k] == keccak(catB(emptyB(), leB(giVal(result0.ImportedBridgeExits[k].GlobalIndex.MainnetFlag, result0.ImportedBridgeExits[k].GlobalIndex.RollupIndex, result0.ImportedBridgeExits[k].GlobalIndex.LeafIndex)))))
 //@   ensures[signature-attached] result1 == nil ==> typeIs(result0.AggchainData, *agglayertypes.AggchainDataSignature) && seq(cast(result0.AggchainData, *agglayertypes.AggchainDataSignature).Signature) == sigOf(signedHash)
 //@   ensures[built-by-the-base-flow] result1 == nil ==> result0.L1InfoTreeLeafCount == buildParams.L1InfoTreeLeafCount && len(result0.BridgeExits) == len(buildParams.Bridges) && len(result0.ImportedBridgeExits) == len(buildParams.Claims) && ((len(buildParams.Bridges) > 0) ==> result0.NewLocalExitRoot == exitRootAt[buildParams.Bridges[len(buildParams.Bridges) - 1].DepositCount]) && ((len(buildParams.Bridges) == 0) ==> result0.NewLocalExitRoot == result0.PrevLocalExitRoot)
+
+// ---- the FEP flow's block range (C02). The last proven block is the block before the range, but never below the
+// configured start block (blocks up to it were settled by the previous system)
+//@ func (f *baseFlow) StartL2Block
+//@   props C02
+//@   requires f != nil
+//@   modifies nothing
+//@   ensures result == f.cfg.StartL2Block
+//@ interface github.com/agglayer/aggkit/aggsender/types.AggsenderFlowBaser.StartL2Block (f)
+//@   sameas github.com/agglayer/aggkit/aggsender/flows.(*baseFlow).StartL2Block
+
+//@ func (a *AggchainProverFlow) getLastProvenBlock
+//@   props C02
+//@   requires a != nil && a.log != nil && a.baseFlow != nil && typeIs(a.baseFlow, *baseFlow) && cast(a.baseFlow, *baseFlow) != nil
+//@   modifies nothing
+//@   ensures[block-before-the-range-or-the-start-block] result == ite(fromBlock == 0 || (lastCertificate != nil && lastCertificate.ToBlock < cast(a.baseFlow, *baseFlow).cfg.StartL2Block) || fromBlock - 1 < cast(a.baseFlow, *baseFlow).cfg.StartL2Block, cast(a.baseFlow, *baseFlow).cfg.StartL2Block, fromBlock - 1)
+//@   ensures[never-below-the-start-block] result >= cast(a.baseFlow, *baseFlow).cfg.StartL2Block
+
+// the prover may prove fewer blocks than requested: the parameters are then cut to the proven range by the proved
+// sub-range filter (same first block), and are untouched when the prover proved everything
+//@ func adjustBlockRange
+//@   props C02 C17
+//@   requires buildParams != nil && buildParams.FromBlock <= buildParams.ToBlock
+//@   ensures[all-proven-keeps-the-parameters] requestedToBlock == aggchainProverToBlock ==> result1 == nil && result0 == buildParams
+//@   ensures[error-means-nothing] result1 != nil ==> result0 == nil
+//@   ensures[cut-to-the-proven-range] (requestedToBlock != aggchainProverToBlock && result1 == nil) ==> result0 != nil && result0.FromBlock == buildParams.FromBlock && result0.ToBlock == aggchainProverToBlock && aggchainProverToBlock <= buildParams.ToBlock && result0.AggchainProof == old(buildParams.AggchainProof) && result0.L1InfoTreeRootFromWhichToProve == old(buildParams.L1InfoTreeRootFromWhichToProve) && result0.L1InfoTreeLeafCount == old(buildParams.L1InfoTreeLeafCount) && result0.LastSentCertificate == old(buildParams.LastSentCertificate) && result0.RetryCount == old(buildParams.RetryCount)
+//@   ensures[proven-range-outside-refused] (requestedToBlock != aggchainProverToBlock && (aggchainProverToBlock > buildParams.ToBlock || aggchainProverToBlock < buildParams.FromBlock)) ==> result1 != nil
+
+// ---- asking the aggchain prover (C09, C02). Boundary (assumed, A8): the prover client; proofReq* record what the
+// last request asked for, proofCalls counts the requests.
+//@ ghost var proofReqLast int
+//@ ghost var proofReqEnd int
+//@ ghost var proofReqRoot Hash
+//@ ghost var proofCalls int
+//@ interface github.com/agglayer/aggkit/aggsender/types.AggchainProofClientInterface.GenerateAggchainProof (self, ctx, req)
+//@   modifies proofReqLast, proofReqEnd, proofReqRoot, proofCalls
+//@   ensures proofCalls == old(proofCalls) + 1 && proofReqLast == req.LastProvenBlock && proofReqEnd == req.RequestedEndBlock && proofReqRoot == req.L1InfoTreeRootHash
+//@   ensures result1 == nil ==> result0 != nil && result0.SP1StarkProof != nil
+//@ interface github.com/agglayer/aggkit/aggsender/types.AggchainProofClientInterface.GenerateOptimisticAggchainProof (self, req, signature)
+//@   modifies proofReqLast, proofReqEnd, proofReqRoot, proofCalls
+//@   ensures proofCalls == old(proofCalls) + 1 && proofReqLast == req.LastProvenBlock && proofReqEnd == req.RequestedEndBlock && proofReqRoot == req.L1InfoTreeRootHash
+//@   ensures result1 == nil ==> result0 != nil && result0.SP1StarkProof != nil
+//@ interface github.com/agglayer/aggkit/aggsender/types.GERQuerier.GetInjectedGERsProofs (self, ctx, finalizedL1InfoTreeRoot, fromBlock, toBlock)
+//@   modifies nothing
+//@ interface github.com/agglayer/aggkit/aggsender/types.OptimisticSigner.Sign (self, ctx, aggchainReq, newLocalExitRoot, claims)
+//@   modifies nothing
+//@ interface github.com/agglayer/aggkit/aggsender/types.AggsenderFlowBaser.GetNewLocalExitRoot (f, ctx, certParams)
+//@   modifies nothing
+//@ interface github.com/agglayer/aggkit/aggsender/types.L1InfoTreeDataQuerier.GetFinalizedL1InfoTreeData (l, ctx)
+//@   sameas github.com/agglayer/aggkit/aggsender/query.(*L1InfoTreeDataQuerier).GetFinalizedL1InfoTreeData
+//@ interface github.com/agglayer/aggkit/aggsender/types.L1InfoTreeDataQuerier.CheckIfClaimsArePartOfFinalizedL1InfoTree (l, finalizedL1InfoTreeRoot, claims)
+//@   sameas github.com/agglayer/aggkit/aggsender/query.(*L1InfoTreeDataQuerier).CheckIfClaimsArePartOfFinalizedL1InfoTree
+//@ interface github.com/agglayer/aggkit/aggsender/types.AggsenderFlowBaser.ConvertClaimToImportedBridgeExit (f, claim)
+//@   sameas github.com/agglayer/aggkit/aggsender/flows.(*baseFlow).ConvertClaimToImportedBridgeExit
+
+// the imported exits handed to the prover: one per claim, in order, each with the claim's block number
+//@ func (a *AggchainProverFlow) getImportedBridgeExitsForProver
+//@   props C09 C03
+//@   requires a != nil && a.baseFlow != nil && typeIs(a.baseFlow, *baseFlow)
+//@   requires forall(k, 0, len(claims), claims[k].GlobalIndex != nil)
+//@   modifies nothing
+//@   ensures[error-means-nothing] result1 != nil ==> result0 == nil
+//@   ensures[one-per-claim-in-order] result1 == nil ==> len(result0) == len(claims) && forall(k, 0, len(claims), result0[k] != nil && result0[k].BlockNumber == claims[k].BlockNum && result0[k].ImportedBridgeExit != nil && result0[k].ImportedBridgeExit.BridgeExit != nil && result0[k].ImportedBridgeExit.BridgeExit.TokenInfo != nil && result0[k].ImportedBridgeExit.BridgeExit.Amount == claims[k].Amount && result0[k].ImportedBridgeExit.BridgeExit.DestinationAddress == claims[k].DestinationAddress && result0[k].ImportedBridgeExit.BridgeExit.DestinationNetwork == claims[k].DestinationNetwork && result0[k].ImportedBridgeExit.BridgeExit.TokenInfo.OriginNetwork == claims[k].OriginNetwork && result0[k].ImportedBridgeExit.BridgeExit.TokenInfo.OriginTokenAddress == claims[k].OriginAddress)
+//@   loop 0 invariant 0 <= rangeindex + 1 && rangeindex + 1 <= len(claims) && len(importedBridgeExits) == rangeindex + 1 && off(importedBridgeExits) == 0 && ref(importedBridgeExits) < heapTop
+//@   loop 0 invariant forall(k, 0, rangeindex + 1, importedBridgeExits[k] != nil && importedBridgeExits[k].BlockNumber == claims[k].BlockNum && importedBridgeExits[k].ImportedBridgeExit != nil && importedBridgeExits[k].ImportedBridgeExit.BridgeExit != nil && importedBridgeExits[k].ImportedBridgeExit.BridgeExit.TokenInfo != nil && importedBridgeExits[k].ImportedBridgeExit.BridgeExit.Amount == claims[k].Amount && importedBridgeExits[k].ImportedBridgeExit.BridgeExit.DestinationAddress == claims[k].DestinationAddress && importedBridgeExits[k].ImportedBridgeExit.BridgeExit.DestinationNetwork == claims[k].DestinationNetwork && importedBridgeExits[k].ImportedBridgeExit.BridgeExit.TokenInfo.OriginNetwork == claims[k].OriginNetwork && importedBridgeExits[k].ImportedBridgeExit.BridgeExit.TokenInfo.OriginTokenAddress == claims[k].OriginAddress)
+
+// one request per call, for exactly the block range asked for, against the finalized L1 info root that is returned,
+// and only after every claim was found to be at or below that root
+//@ func (a *AggchainProverFlow) GenerateAggchainProof
+//@   props C09 C02
+//@   requires a != nil && a.log != nil && a.l1InfoTreeDataQuerier != nil && a.gerQuerier != nil && a.aggchainProofClient != nil && a.baseFlow != nil && typeIs(a.baseFlow, *baseFlow) && certBuildParams != nil
+//@   requires typeIs(a.l1InfoTreeDataQuerier, *query.L1InfoTreeDataQuerier) && cast(a.l1InfoTreeDataQuerier, *query.L1InfoTreeDataQuerier) != nil && cast(a.l1InfoTreeDataQuerier, *query.L1InfoTreeDataQuerier).l1InfoTreeSyncer != nil
+//@   requires certBuildParams.CertificateType == types.CertificateTypeOptimistic ==> a.optimisticSigner != nil
+//@   requires forall(k, 0, len(certBuildParams.Claims), certBuildParams.Claims[k].GlobalIndex != nil)
+//@   modifies proofReqLast, proofReqEnd, proofReqRoot, proofCalls, certBuildParams.ExtraData
+//@   ensures[error-means-nothing] result2 != nil ==> result0 == nil && result1 == nil
+//@   ensures[at-most-one-request] proofCalls <= old(proofCalls) + 1 && (result2 == nil ==> proofCalls == old(proofCalls) + 1)
+//@   ensures[asks-for-the-requested-range-against-the-returned-root] result2 == nil ==> result0 != nil && result0.SP1StarkProof != nil && result1 != nil && proofReqLast == lastProvenBlock && proofReqEnd == toBlock && proofReqRoot == result1.Hash
+//@   ensures[root-is-a-finalized-root] result2 == nil ==> result1.Hash == l1RootHashAt(result1.Index)
+//@   ensures[claims-at-or-below-the-root] result2 == nil ==> forall(k, 0, len(certBuildParams.Claims), gerLeafIndex(certBuildParams.Claims[k].GlobalExitRoot) <= result1.Index)
